@@ -1077,12 +1077,12 @@ class EdnsOptions(Kind):
     def domain(self, tier):
         ecs4 = (O_ECS, (1, 24, 0, bytes([192, 0, 2])))
         return [
-            (), ((O_NSID, b"ns1"),), ((O_NSID, b""),), ((O_NSID, b"\x00\xff"),), (ecs4,),
+            (), ((O_NSID, b"ns1"),), ((O_EDE, (32, "a\x00b")),), (ecs4,), ((O_NSID, b""),), ((O_NSID, b"\x00\xff"),),
             ((O_ECS, (1, 0, 0, b"")),), ((O_ECS, (1, 32, 32, bytes([1, 2, 3, 4]))),), ((O_ECS, (1, 20, 0, bytes([10, 1, 0xF0]))),),
             ((O_ECS, (2, 56, 0, bytes.fromhex("20010db8000001"))),), ((O_ECS, (2, 128, 128, V6[0])),), ((O_ECS, (2, 0, 0, b"")),),
             ((O_ECS, (2, 1, 0, b"\x80")),),
             ((O_COOKIE, (bytes(range(8)), b"")),), ((O_COOKIE, (b"\xff" * 8, bytes(range(8)))),), ((O_COOKIE, (bytes(8), bytes(range(32)))),),
-            ((O_EDE, (0, None)),), ((O_EDE, (15, "blocked")),), ((O_EDE, (65535, "é 中")),), ((O_EDE, (32, "a\x00b")),),
+            ((O_EDE, (0, None)),), ((O_EDE, (15, "blocked")),), ((O_EDE, (65535, "é 中")),),
             ((O_REPORT, (b"a", b"example", b"")),), ((O_REPORT, ROOT),), ((O_REPORT, NAME255),),
             ((O_EDELANG, "en"),), ((O_EDELANG, ""),), ((O_FCONTACT, "mailto:a@b.example"),), ((O_FORG, "Org ü"),), ((O_FDB, "db-1"),),
             ((5, b"\x08\x0d"),), ((12, bytes(31)),), ((12, b""),), ((65001, b"\xde\xad"),), ((0, b"x"),), ((65535, b""),),
